@@ -96,6 +96,7 @@ int runFatal(int argc, char **argv)
     const QString dir = QString::fromLocal8Bit(argv[4]);
     const int n = atoi(argv[5]), size = atoi(argv[6]), nthreads = atoi(argv[7]), fatalThread = atoi(argv[8]);
     const int L = atoi(argv[9]), N = atoi(argv[10]), opts = atoi(argv[11]), withApp = atoi(argv[12]);
+    const long idBase = argc > 13 ? atol(argv[13]) : 0; // a crash loop: the same program again over the same directory
     QCoreApplication *app = withApp ? new QCoreApplication(argc, argv) : nullptr;
     (void)app;
     const QString path = dir + QStringLiteral("/app.log");
@@ -163,7 +164,7 @@ int runFatal(int argc, char **argv)
     std::atomic<int> done { 0 };
     auto logShare = [&](int t) {
         for (int i = t; i < n; i += T) {
-            const QString text = pad(QStringLiteral("id=%1;").arg(i), size);
+            const QString text = pad(QStringLiteral("id=%1;").arg(idBase + i), size);
             if (i % 3 == 1)
                 qWarning("%s", qUtf8Printable(text));
             else
@@ -176,9 +177,9 @@ int runFatal(int argc, char **argv)
         while (done.load() < T) std::this_thread::yield();
         evs("fatal-begin");
         if (cfg == "nestedcat") {
-            QMessageLogger("f.cpp", 1, "fn", "deadly").fatal("id=%d; FATAL-END", n);
+            QMessageLogger("f.cpp", 1, "fn", "deadly").fatal("id=%ld; FATAL-END", idBase + n);
         } else {
-            qFatal("id=%d; FATAL-END", n);
+            qFatal("id=%ld; FATAL-END", idBase + n);
         }
     };
     std::vector<std::thread> th;
